@@ -3,6 +3,7 @@
 -/
 import Xc.Spec.DesTables
 import Xc.Gen.DesTables
+import Xc.Lemmas.Feistel
 namespace Xc.C17
 open Xc Xc.Spec.DesT
 
@@ -35,5 +36,14 @@ theorem des_tables_sbox :
   decide +kernel
 
 theorem des_key_shifts : Gen.des_key_shifts = [1, 1, 2, 2, 2, 2, 2, 2, 1, 2, 2, 2, 2, 2, 2, 1] := by decide
+
+/-- **decryption inverts encryption** (and vice versa) at the level of `des_crypt_block`'s rounds: for every key schedule, every
+    salt, every pair of block halves and every iteration count, running the sixteen rounds with the round keys in reverse order
+    undoes running them in order — the Feistel argument, which holds whatever the round function computes.  The initial and
+    final permutations and the byte packing around these rounds are covered by the table theorems above and the bit-level oracle. -/
+theorem C17_rounds_invert (c : Des.Ctx) (n : Nat) (p : UInt32 × UInt32) :
+    Des.iter (Des.pass c.saltbits (Des.keyList c true)) n (Des.iter (Des.pass c.saltbits (Des.keyList c false)) n p) = p ∧
+    Des.pass c.saltbits (Des.keyList c false) (Des.pass c.saltbits (Des.keyList c true) p) = p :=
+  ⟨Des.passes_inverse c n p, (Des.pass_inverse c p).2⟩
 
 end Xc.C17
